@@ -64,6 +64,9 @@ type Gen struct {
 	volatile        map[string]bool
 	lockSt          State
 	staleInv        []string
+	headSt          map[*ssa.BasicBlock]State
+	headVars        map[*ssa.BasicBlock]map[string]T
+	curHead         *ssa.BasicBlock
 	interfered      map[string]bool // guarded fields havocked at lock acquisition (interference, not our writes)
 	frameStructural map[string]bool
 	errQuantDone    bool
